@@ -70,6 +70,17 @@ type c19Stats struct {
 	entries, maxDepth, shardedLevels int
 }
 
+// repathEntry returns a deep copy of de with the path prefix from replaced by to, at every level.
+func repathEntry(de testutil.DirEntry, from, to string) testutil.DirEntry {
+	out := de
+	out.Path = to + strings.TrimPrefix(de.Path, from)
+	out.Children = nil
+	for _, ch := range de.Children {
+		out.Children = append(out.Children, repathEntry(ch, from, to))
+	}
+	return out
+}
+
 // compareEntry checks a returned DirEntry against an independent walk of the
 // stored DAG from its Root.
 func compareEntry(c *mon.Case, gname string, w *oracle.Walker, de testutil.DirEntry, pathRule bool, depth int, stt *c19Stats) {
@@ -389,6 +400,24 @@ func TestC19(t *testing.T) {
 								f.Path = odd
 								children = append(children, f)
 							}
+						}
+						if gg.Var%3 == 1 || gg.Var%4 == 0 {
+							// identical content under different names: a file and its copy next to each other
+							// in name order, a copy further away, two empty files, one sub-directory twice.
+							// They share their blocks; they are entries of their own all the same
+							twin := children[0]
+							for _, nm := range []string{"/twin-a", "/twin-b", "/zz-twin-far"} {
+								t2 := twin
+								t2.Path = nm
+								children = append(children, t2)
+							}
+							for _, nm := range []string{"/void-1", "/void-2"} {
+								e := testutil.GenerateFile(t, ls, rnd, 0)
+								e.Path = nm
+								children = append(children, e)
+							}
+							children = append(children, repathEntry(sub, "/sub", "/sub-again"), repathEntry(sub, "/sub", "/tub"))
+							c.Count("identical_siblings_built", 7)
 						}
 						de = testutil.BuildDirectory(t, ls, children, sharded)
 					})
